@@ -1,2 +1,7 @@
 """Ghost globals (declared sorts)."""
 GHOSTS = {}
+from pyvc.types import TSet, TStr  # noqa: E402
+
+# the local filesystem as seen through os.stat / os.chmod: existing paths and paths whose mode is exactly 0o444
+GHOSTS["lfiles"] = TSet(TStr)
+GHOSTS["l444"] = TSet(TStr)
